@@ -44,9 +44,12 @@ def run_check(tier, seed):
     ev.cov['checker_cmd'] = 'make -C coq Props/C12.vo (coqc 8.16.1, full .vo) + Print Assumptions audit'
     ev.cov['trusted_base'] = TRUSTED_COMMON + S.SERVER_TRUSTED + [
         'coq/Spec/Init.v: how a Linux client reads the INIT reply (flags2 only together with FUSE_INIT_EXT, only in the 64-byte form), transcribed from fs/fuse/inode.c process_init_reply',
-        'FsOptions::all() mask and the session buffer size expression are re-read from the source on every run']
+        'FsOptions::all() mask, the session buffer size expression and VfsOptions::default().out_opts are re-read from the source on every run',
+        'harness/src/bin/inittoggle.rs: real Vfs / PassthroughFs / OverlayFs objects; the internal switches are observed through behaviour probes (OPEN/OPENDIR ENOSYS, /proc/self/fdinfo flags of the descriptor an O_WRONLY|O_APPEND open produced, setuid bit after open(O_TRUNC) with FOPEN_IN_KILL_SUIDGID as root with CAP_FSETID, FUSE_ATTR_DAX on lookup)']
     ev.assumptions = ['page size 4096 (max_write = 256 pages); with 64 KiB pages the write-size bound does not hold and the statement says so',
-                      'clients are coherent: FUSE_INIT_EXT is only sent by minor >= 36 clients (others are exercised for model correspondence only)']
+                      'clients are coherent: FUSE_INIT_EXT is only sent by minor >= 36 clients (others are exercised for model correspondence only)',
+                      'layer switch theorems are per first INIT of an instance; across INIT/DESTROY/INIT the full statement is refuted (known findings sticky-reinit) and only `negotiated by some INIT of the history` is proved',
+                      'quick tier samples capability words per switch combination (none, all, two rotating single bits, one composite/random); thorough runs every word against every combination']
     broken = []; findings = []; import time as _t; ph = {}; t0 = _t.time()
     try:
         write_if_changed(os.path.join(COQ, 'Gen/RustABI.v'), rust_abi.emit_coq(rust_abi.translate(REPO)))
